@@ -307,6 +307,13 @@ impl ECMAScriptDatamodel {
         if allow_undefined && self.strict_mode {
             self.context.strict(false);
         }
+        // An <assign> (or the item of a <foreach>) is an assignment made by the platform, not by the author's
+        // script: it is evaluated strict in either mode. Otherwise an illegal location (not declared, a
+        // read-only system variable or one of its fields) is ignored silently instead of raising the error.
+        let force_strict = !allow_undefined && !self.strict_mode;
+        if force_strict {
+            self.context.strict(true);
+        }
         let r = match self.eval(&str_to_source(exp.as_str())) {
             Ok(_) => true,
             Err(error) => {
@@ -329,6 +336,9 @@ impl ECMAScriptDatamodel {
         };
         if allow_undefined && self.strict_mode {
             self.context.strict(true);
+        }
+        if force_strict {
+            self.context.strict(false);
         }
         r
     }
